@@ -26,11 +26,23 @@ type feer struct {
 	dep map[util.Uint160]int64 // notary deposits
 	fpb int64
 	h   uint32
+	// yield makes the chain queries give up the processor, as the real ones
+	// (which take the chain's locks) may: the pool calls them between its own
+	// critical sections, where other goroutines can get in (concurrent part)
+	yield bool
 }
 
-func (f *feer) FeePerByte() int64   { return f.fpb }
-func (f *feer) BlockHeight() uint32 { return f.h }
+func (f *feer) FeePerByte() int64 { return f.fpb }
+func (f *feer) BlockHeight() uint32 {
+	if f.yield {
+		runtime.Gosched()
+	}
+	return f.h
+}
 func (f *feer) GetUtilityTokenBalance(p, s util.Uint160) *big.Int {
+	if f.yield {
+		runtime.Gosched()
+	}
 	if p == nativehashes.Notary && s != (util.Uint160{}) {
 		return big.NewInt(f.dep[s])
 	}
